@@ -52,6 +52,10 @@ def run(ctx):
         gens.append(("real-exhaustion", c08.exhaustion_history))
     for i in range(3 if ctx.tier == "quick" else 40):
         gens.append(("rdb-partition", c03.part_history))
+    # single-file handle histories aimed at block / 72-block / extension-block edges (the generator of the call-level correspondence)
+    from . import fileiocorr
+    for i in range(30 if ctx.tier == "quick" else 400):
+        gens.append(("handle-history", fileiocorr.valid_history))
     vg_budget = {}      # per generator, so that every kind of history gets its share of memcheck runs
     vg_each = 4 if ctx.tier == "quick" else 40
     have_vg = shutil.which("valgrind") is not None
